@@ -3,7 +3,9 @@ package c07
 
 import (
 	"fmt"
+	"os"
 	"strings"
+	"time"
 
 	bpmn "github.com/olive-io/bpmn/v2"
 	"github.com/olive-io/bpmn/v2/pkg/tracing"
@@ -18,6 +20,11 @@ type prog struct {
 	g     *drv.Graph
 	vars  map[string]any
 	timer bool
+	// deliver: node id -> signal delivered (from its own goroutine) as soon as that catch event
+	// reports that it listens, or that activity reports that its boundary events are active
+	deliver map[string]string
+	// retry: tasks answered with an error and a retry-mode handler on their first request
+	retry map[string]bool
 }
 
 func catch(g *drv.Graph, id string, d drv.EventDef) *drv.Node {
@@ -33,7 +40,14 @@ func corpus() []prog {
 	add := func(name string, build func(g *drv.Graph), vars map[string]any, timer bool) {
 		g := drv.NewGraph("c07_" + name)
 		build(g)
-		ps = append(ps, prog{name, g, vars, timer})
+		ps = append(ps, prog{name: name, g: g, vars: vars, timer: timer})
+	}
+	withEvents := func(deliver map[string]string) { ps[len(ps)-1].deliver = deliver }
+	withRetry := func(ids ...string) {
+		ps[len(ps)-1].retry = map[string]bool{}
+		for _, id := range ids {
+			ps[len(ps)-1].retry[id] = true
+		}
 	}
 	add("task-pending", func(g *drv.Graph) {
 		s, a, n, e := g.Add(drv.Start, "start"), g.Add(drv.Task, "a1"), g.Add(drv.Task, "n1"), g.Add(drv.End, "end")
@@ -51,6 +65,30 @@ func corpus() []prog {
 		g.Link(n, j, nil)
 		g.Link(j, e, nil)
 	}, nil, false)
+	add("and-join-arriving", func(g *drv.Graph) {
+		// both branches are answered: the cancellation points fall before, between and after the
+		// two arrivals at the join
+		s, f, j, n, e := g.Add(drv.Start, "start"), g.Add(drv.AND, "F"), g.Add(drv.AND, "J"), g.Add(drv.Task, "n1"), g.Add(drv.End, "end")
+		a1, a2 := g.Add(drv.Task, "a1"), g.Add(drv.Task, "a2")
+		g.Link(s, f, nil)
+		g.Link(f, a1, nil)
+		g.Link(f, a2, nil)
+		g.Link(a1, j, nil)
+		g.Link(a2, j, nil)
+		g.Link(j, n, nil)
+		g.Link(n, e, nil)
+	}, nil, false)
+	add("or-join-arriving", func(g *drv.Graph) {
+		s, f, j, n, e := g.Add(drv.Start, "start"), g.Add(drv.OR, "OF"), g.Add(drv.OR, "OJ"), g.Add(drv.Task, "n1"), g.Add(drv.End, "end")
+		a1, a2 := g.Add(drv.Task, "a1"), g.Add(drv.Task, "a2")
+		g.Link(s, f, nil)
+		g.Link(f, a1, drv.Var("c1"))
+		g.Link(f, a2, drv.Var("c2"))
+		g.Link(a1, j, nil)
+		g.Link(a2, j, nil)
+		g.Link(j, n, nil)
+		g.Link(n, e, nil)
+	}, map[string]any{"c1": true, "c2": true}, false)
 	add("or-join-waiting", func(g *drv.Graph) {
 		s, f, j, e := g.Add(drv.Start, "start"), g.Add(drv.OR, "OF"), g.Add(drv.OR, "OJ"), g.Add(drv.End, "end")
 		a, n := g.Add(drv.Task, "a1"), g.Add(drv.Task, "n1")
@@ -80,6 +118,21 @@ func corpus() []prog {
 		g.Link(s, c, nil)
 		g.Link(c, e, nil)
 	}, nil, true)
+	add("timer-date-firing", func(g *drv.Graph) {
+		// a one-shot timer that fires (the clock is moved when the catch event listens)
+		s, c, n, e := g.Add(drv.Start, "start"), catch(g, "cT", drv.EventDef{Kind: "timer", Sub: "timeDate", Ref: "2024-01-01T01:00:00Z"}), g.Add(drv.Task, "n1"), g.Add(drv.End, "end")
+		g.Link(s, c, nil)
+		g.Link(c, n, nil)
+		g.Link(n, e, nil)
+	}, nil, true)
+	withEvents(map[string]string{"cT": "+1h"})
+	add("timer-duration-firing", func(g *drv.Graph) {
+		s, c, n, e := g.Add(drv.Start, "start"), catch(g, "cT", drv.EventDef{Kind: "timer", Sub: "timeDuration", Ref: "PT1H"}), g.Add(drv.Task, "n1"), g.Add(drv.End, "end")
+		g.Link(s, c, nil)
+		g.Link(c, n, nil)
+		g.Link(n, e, nil)
+	}, nil, true)
+	withEvents(map[string]string{"cT": "+1h"})
 	add("event-gateway-armed", func(g *drv.Graph) {
 		s, gw := g.Add(drv.Start, "start"), g.Add(drv.EBG, "G")
 		g.Link(s, gw, nil)
@@ -140,6 +193,121 @@ func corpus() []prog {
 		g.Link(s, a, nil)
 		g.Link(a, e, nil)
 	}, nil, false)
+	add("nested-subprocess", func(g *drv.Graph) {
+		s, sp, e := g.Add(drv.Start, "start"), g.AddSub("sp"), g.Add(drv.End, "end")
+		is, isp, ie := sp.Inner.Add(drv.Start, "sp_start"), sp.Inner.AddSub("sp2"), sp.Inner.Add(drv.End, "sp_end")
+		js, ja, jn, je := isp.Inner.Add(drv.Start, "sp2_start"), isp.Inner.Add(drv.Task, "a1"), isp.Inner.Add(drv.Task, "n1"), isp.Inner.Add(drv.End, "sp2_end")
+		isp.Inner.Link(js, ja, nil)
+		isp.Inner.Link(ja, jn, nil)
+		isp.Inner.Link(jn, je, nil)
+		sp.Inner.Link(is, isp, nil)
+		sp.Inner.Link(isp, ie, nil)
+		g.Link(s, sp, nil)
+		g.Link(sp, e, nil)
+	}, nil, false)
+	add("loop-running", func(g *drv.Graph) {
+		// start -> M -> a1 (counts) -> X -(again)-> M | n1 -> end: the loop body is answered until the
+		// counter says stop, then the token waits at n1
+		s, m, a, x, n, e := g.Add(drv.Start, "start"), g.Add(drv.XOR, "M"), g.Add(drv.Task, "a1"), g.Add(drv.XOR, "X"), g.Add(drv.Task, "n1"), g.Add(drv.End, "end")
+		a.Results, a.RTypes = []string{"again"}, []string{"boolean"}
+		g.Link(s, m, nil)
+		g.Link(m, a, nil)
+		g.Link(a, x, nil)
+		g.Link(x, m, drv.Var("again"))
+		g.LinkDefault(x, n)
+		g.Link(n, e, nil)
+	}, map[string]any{"again": false}, false)
+	add("event-gateway-determined", func(g *drv.Graph) {
+		s, gw := g.Add(drv.Start, "start"), g.Add(drv.EBG, "G")
+		g.Link(s, gw, nil)
+		for _, x := range []string{"A", "B"} {
+			c, t, e := catch(g, "c"+x, drv.EventDef{Kind: "signal", Ref: x}), g.Add(drv.Task, "n"+x), g.Add(drv.End, "end"+x)
+			g.Link(gw, c, nil)
+			g.Link(c, t, nil)
+			g.Link(t, e, nil)
+		}
+	}, nil, false)
+	withEvents(map[string]string{"cA": "A", "cB": "B"})
+	add("boundary-fired", func(g *drv.Graph) {
+		// a non-interrupting boundary event fires while the host waits: host and exception task pending
+		s, n, e := g.Add(drv.Start, "start"), g.Add(drv.Task, "n1"), g.Add(drv.End, "end")
+		b := g.AddBoundary(n, "b1", false, drv.EventDef{Kind: "signal", Ref: "E1"})
+		nx, ex := g.Add(drv.Task, "n2"), g.Add(drv.End, "endx")
+		g.Link(s, n, nil)
+		g.Link(n, e, nil)
+		g.Link(b, nx, nil)
+		g.Link(nx, ex, nil)
+	}, nil, false)
+	withEvents(map[string]string{"b1": "E1"})
+	add("subprocess-interrupted", func(g *drv.Graph) {
+		// an interrupting boundary event on a running sub-process
+		s, sp, e := g.Add(drv.Start, "start"), g.AddSub("sp"), g.Add(drv.End, "end")
+		is, in, ie := sp.Inner.Add(drv.Start, "sp_start"), sp.Inner.Add(drv.Task, "n1"), sp.Inner.Add(drv.End, "sp_end")
+		sp.Inner.Link(is, in, nil)
+		sp.Inner.Link(in, ie, nil)
+		b := g.AddBoundary(sp, "b1", true, drv.EventDef{Kind: "signal", Ref: "E1"})
+		nx, ex := g.Add(drv.Task, "n2"), g.Add(drv.End, "endx")
+		g.Link(s, sp, nil)
+		g.Link(sp, e, nil)
+		g.Link(b, nx, nil)
+		g.Link(nx, ex, nil)
+	}, nil, false)
+	withEvents(map[string]string{"b1": "E1"})
+	add("catch-in-subprocess", func(g *drv.Graph) {
+		s, sp, e := g.Add(drv.Start, "start"), g.AddSub("sp"), g.Add(drv.End, "end")
+		is, ic, in, ie := sp.Inner.Add(drv.Start, "sp_start"), catch(sp.Inner, "cA", drv.EventDef{Kind: "signal", Ref: "A"}), sp.Inner.Add(drv.Task, "n1"), sp.Inner.Add(drv.End, "sp_end")
+		sp.Inner.Link(is, ic, nil)
+		sp.Inner.Link(ic, in, nil)
+		sp.Inner.Link(in, ie, nil)
+		g.Link(s, sp, nil)
+		g.Link(sp, e, nil)
+	}, nil, false)
+	withEvents(map[string]string{"cA": "A"})
+	add("parallel-multiple-half", func(g *drv.Graph) {
+		s, c, n, e := g.Add(drv.Start, "start"), g.Add(drv.Catch, "cAB"), g.Add(drv.Task, "n1"), g.Add(drv.End, "end")
+		c.Defs = []drv.EventDef{{Kind: "signal", Ref: "A"}, {Kind: "signal", Ref: "B"}}
+		c.ParallelMult = true
+		g.Link(s, c, nil)
+		g.Link(c, n, nil)
+		g.Link(n, e, nil)
+	}, nil, false)
+	withEvents(map[string]string{"cAB": "A"})
+	add("retry-pending", func(g *drv.Graph) {
+		s, a, n, e := g.Add(drv.Start, "start"), g.Add(drv.Task, "a1"), g.Add(drv.Task, "n1"), g.Add(drv.End, "end")
+		g.Link(s, a, nil)
+		g.Link(a, n, nil)
+		g.Link(n, e, nil)
+	}, nil, false)
+	withRetry("a1")
+	add("xor-stuck", func(g *drv.Graph) {
+		// no condition holds and there is no default: an error trace, the token stays at the gateway
+		s, a, x, n, e := g.Add(drv.Start, "start"), g.Add(drv.Task, "a1"), g.Add(drv.XOR, "X"), g.Add(drv.Task, "n1"), g.Add(drv.End, "end")
+		g.Link(s, a, nil)
+		g.Link(a, x, nil)
+		g.Link(x, n, drv.Var("c1"))
+		g.Link(n, e, nil)
+	}, map[string]any{"c1": false}, false)
+	add("or-fork-default", func(g *drv.Graph) {
+		s, f, j, e := g.Add(drv.Start, "start"), g.Add(drv.OR, "OF"), g.Add(drv.OR, "OJ"), g.Add(drv.End, "end")
+		a, n := g.Add(drv.Task, "a1"), g.Add(drv.Task, "n1")
+		g.Link(s, f, nil)
+		g.Link(f, a, drv.Var("c1"))
+		g.LinkDefault(f, n)
+		g.Link(a, j, nil)
+		g.Link(n, j, nil)
+		g.Link(j, e, nil)
+	}, map[string]any{"c1": false}, false)
+	add("timer-cycle-looping", func(g *drv.Graph) {
+		// a cycle timer catch event in a loop; the clock is moved when the catch event listens
+		s, m, c, a, x, e := g.Add(drv.Start, "start"), g.Add(drv.XOR, "M"), catch(g, "cT", drv.EventDef{Kind: "timer", Sub: "timeCycle", Ref: "R3/PT1H"}), g.Add(drv.Task, "a1"), g.Add(drv.XOR, "X"), g.Add(drv.End, "end")
+		g.Link(s, m, nil)
+		g.Link(m, c, nil)
+		g.Link(c, a, nil)
+		g.Link(a, x, nil)
+		g.Link(x, m, drv.Var("again"))
+		g.LinkDefault(x, e)
+	}, map[string]any{"again": true}, true)
+	withEvents(map[string]string{"cT": "+1h"})
 	return ps
 }
 
@@ -154,6 +322,8 @@ func body(p prog, maxK int) func() {
 		cancelled := false
 		cancelSeq := -1
 		returnedDo, issuedDo := 0, 0
+		returnedEv, issuedEv := 0, 0
+		seen := map[string]int{}
 		r.OnTrace = func(seq int, raw tracing.ITrace) {
 			if tt, ok := tracing.Unwrap(raw).(bpmn.TaskTrace); ok && !cancelled {
 				id := ""
@@ -162,9 +332,44 @@ func body(p prog, maxK int) func() {
 				}
 				if strings.HasPrefix(id, "a") {
 					issuedDo++
+					seen[id]++
+					nth := seen[id]
+					var opts []bpmn.DoOption
+					if n := p.g.Find(id); n != nil && len(n.Results) > 0 {
+						opts = append(opts, bpmn.DoWithResults(map[string]any{n.Results[0]: nth < 3}))
+					}
+					if p.retry[id] && nth == 1 {
+						hch := make(chan bpmn.ErrHandler, 1)
+						hch <- bpmn.ErrHandler{Mode: bpmn.RetryMode, Retries: 1}
+						opts = []bpmn.DoOption{bpmn.DoWithErrHandle(fmt.Errorf("try again"), hch)}
+					}
 					go func() {
-						tt.Do()
+						tt.Do(opts...)
 						returnedDo++
+					}()
+				}
+			}
+			if !cancelled && p.deliver != nil {
+				node := ""
+				switch x := tracing.Unwrap(raw).(type) {
+				case bpmn.ActiveListeningTrace:
+					if pid, ok := x.Node.Id(); ok {
+						node = *pid
+					}
+				case bpmn.ActiveBoundaryTrace:
+					if pid, ok := x.Node.Id(); ok && x.Start {
+						node = *pid
+					}
+				}
+				if ref, ok := p.deliver[node]; ok && node != "" {
+					issuedEv++
+					go func() {
+						if ref == "+1h" {
+							r.Clock.Add(time.Hour)
+						} else {
+							r.Signal(ref)
+						}
+						returnedEv++
 					}()
 				}
 			}
@@ -200,6 +405,11 @@ func body(p prog, maxK int) func() {
 			verifrt.WaitIdle()
 		}
 		sig := "C07/" + p.name
+		if os.Getenv("VERIF_DEBUG") != "" {
+			for _, t := range r.Stream {
+				verifrt.Log("trace %s", t)
+			}
+		}
 		where := fmt.Sprintf("cancel after %d traces (of %d received)", k, r.NTraces)
 		if pre {
 			where = fmt.Sprintf("cancel before StartAll (%d traces received)", r.NTraces)
@@ -216,7 +426,11 @@ func body(p prog, maxK int) func() {
 			return
 		}
 		if returnedDo != issuedDo {
-			h.Fail(sig+"/do-returns", "%s: %d of %d Do calls returned", where, returnedDo, issuedDo)
+			h.Fail(sig+"/do-returns", "%s: %d of %d Do calls returned; callers blocked: %v", where, returnedDo, issuedDo, verifrt.LiveEnvGoroutines())
+			return
+		}
+		if returnedEv != issuedEv {
+			h.Fail(sig+"/consume-returns", "%s: %d of %d event deliveries returned; callers blocked: %v; live: %v", where, returnedEv, issuedEv, verifrt.LiveEnvGoroutines(), verifrt.LiveRepoGoroutines())
 			return
 		}
 		done := false
@@ -240,7 +454,7 @@ func body(p prog, maxK int) func() {
 			}
 		}
 		if sp := verifrt.LiveSpinners(); len(sp) > 0 {
-			h.Fail(sig+"/no-spinning", "%s: goroutines spinning on a closed channel: %v", where, sp)
+			h.Fail(sig+"/no-spinning", "%s: goroutines spinning on a closed channel: %v; live: %v", where, sp, verifrt.LiveRepoGoroutines())
 			return
 		}
 		if live := verifrt.LiveRepoGoroutines(); len(live) > 0 {
@@ -253,6 +467,22 @@ func body(p prog, maxK int) func() {
 				site = site[:i]
 			}
 			h.Fail(sig+"/no-goroutine-leak@"+site, "%s: %d goroutines started by the instance are still alive: %v", where, len(live), live)
+			return
+		}
+		// events handed to the stopped instance are dropped: the caller is not kept either
+		// (more deliveries than any node's inbox holds)
+		post := 0
+		go func() {
+			for i := 0; i < 6; i++ {
+				for _, ref := range []string{"A", "B", "E1", "T"} {
+					r.Signal(ref)
+				}
+			}
+			post = 1
+		}()
+		verifrt.WaitIdle()
+		if post != 1 {
+			h.Fail(sig+"/consume-returns-after-stop", "%s: an event delivered after the instance has stopped blocks its caller: %v", where, verifrt.LiveEnvGoroutines())
 			return
 		}
 	}
@@ -270,6 +500,20 @@ func init() {
 			for _, d := range bounds {
 				sc := &h.Scn{Name: fmt.Sprintf("C07/%s/cancel@0..60/d%d", p.name, d), Body: body(p, 60), Opts: verifrt.Options{Bound: d, UseCache: true}}
 				sc.Weight = 60 * (1 + 500*d)
+				if d >= 1 {
+					sc.Split = 16
+				}
+				out = append(out, sc)
+			}
+		}
+		{
+			bounds := []int{0}
+			if thorough {
+				bounds = []int{0, 1}
+			}
+			for _, d := range bounds {
+				sc := &h.Scn{Name: fmt.Sprintf("C07/process-set/cancel@0..90/d%d", d), Body: setBody(90), Opts: verifrt.Options{Bound: d, UseCache: true}}
+				sc.Weight = 90 * (1 + 500*d)
 				if d >= 1 {
 					sc.Split = 16
 				}
